@@ -39,7 +39,7 @@ PROPS = {
                      'relative of the layer boundary may go either way',
                      'each periodic length is at least 1.2 layer thicknesses; completeness is checked for images at one period only',
                      'copied-property subsets always contain x, y, z, h and the identity; mirror axes: particles stay inside the box'],
-        quick=dict(runs=20000, budget_s=60),
+        quick=dict(runs=40000, budget_s=70),
         thorough=dict(runs=2000000, budget_s=1200),
     ),
 }
